@@ -1256,8 +1256,126 @@ def dezip_channel_loops(doc, log):
         fl["items"] = rw(fl["items"])
 
 
+# ----------------------------------------------------------------------------------------------
+# 0. every binding of a function gets a name of its own: a `let` / loop / closure / match pattern that re-binds a name already in scope
+#    (`let npoints = 8 * ((npoints + 7) / 8);`) is renamed to `<name>__sN` together with exactly the mentions that refer to it.  Rules that
+#    collect `let` initialisers by name can then never mistake the re-bound local for the parameter (or the earlier local) it shadows.
+
+
+def unshadow(doc, log):
+    counter = [0]
+
+    def pat_names(p, acc):
+        if isinstance(p, dict):
+            if p.get("k") == "pident":
+                acc.append(p["name"])
+            for v in p.values():
+                if isinstance(v, (dict, list)):
+                    pat_names(v, acc)
+        elif isinstance(p, list):
+            for x in p:
+                pat_names(x, acc)
+        return acc
+
+    def ren_pat(p, env):
+        if isinstance(p, list):
+            return [ren_pat(x, env) for x in p]
+        if not isinstance(p, dict):
+            return p
+        out = {k: (ren_pat(v, env) if isinstance(v, (dict, list)) else v) for k, v in p.items()}
+        if out.get("k") == "pident" and out.get("name") in env:
+            out["name"] = env[out["name"]]
+        return out
+
+    def bind(p, env, where):
+        env2 = dict(env)
+        for n in pat_names(p, []):
+            if n == "self":
+                continue
+            if n in env2:
+                counter[0] += 1
+                env2[n] = "%s__s%d" % (n, counter[0])
+                where.append(n)
+            else:
+                env2[n] = n
+        return env2
+
+    def expr(n, env, where):
+        if isinstance(n, list):
+            return [expr(x, env, where) for x in n]
+        if not isinstance(n, dict):
+            return n
+        k = n.get("k")
+        if k == "path":
+            return dict(n, p=env[n["p"]]) if n.get("p") in env and env[n["p"]] != n["p"] else n
+        if k == "struct" and isinstance(n.get("fields"), list):
+            # shorthand `T { x }` reads the local x: the value expression is renamed, the field name is not
+            return dict(n, fields=[[f[0], expr(f[1], env, where)] + list(f[2:]) if isinstance(f, list) and len(f) >= 2 else f for f in n["fields"]],
+                        **({"rest": expr(n["rest"], env, where)} if isinstance(n.get("rest"), dict) else {}))
+        if k == "macro":
+            return {kk: (expr(v, env, where) if isinstance(v, (dict, list)) and kk in ("args", "repeat") else v) for kk, v in n.items()}
+        if k == "block":
+            return block(n, env, where)
+        if k == "for":
+            e2 = bind(n["pat"], env, where)
+            return dict(n, iter=expr(n["iter"], env, where), pat=ren_pat(n["pat"], e2), body=expr(n["body"], e2, where))
+        if k == "closure":
+            e2 = env
+            for p in n.get("params", []):
+                e2 = bind(p, e2, where)
+            return dict(n, params=[ren_pat(p, e2) for p in n.get("params", [])], body=expr(n["body"], e2, where))
+        if k == "match":
+            arms = []
+            for a in n.get("arms", []):
+                e2 = bind(a["pat"], env, where)
+                arms.append(dict(a, pat=ren_pat(a["pat"], e2), body=expr(a["body"], e2, where), guard=expr(a.get("guard"), e2, where) if a.get("guard") else a.get("guard")))
+            return dict(n, e=expr(n["e"], env, where), arms=arms)
+        if k in ("if", "while") and isinstance(n.get("c"), dict) and n["c"].get("k") == "letcond":
+            e2 = bind(n["c"]["pat"], env, where)
+            c2 = dict(n["c"], e=expr(n["c"]["e"], env, where), pat=ren_pat(n["c"]["pat"], e2))
+            out = dict(n, c=c2)
+            if k == "if":
+                out["then"] = expr(n["then"], e2, where)
+                if n.get("else") is not None:
+                    out["else"] = expr(n["else"], env, where)
+            else:
+                out["body"] = expr(n["body"], e2, where)
+            return out
+        return {kk: (expr(v, env, where) if isinstance(v, (dict, list)) else v) for kk, v in n.items()}
+
+    def block(b, env, where):
+        out = []
+        e = dict(env)
+        for s in b["stmts"]:
+            if isinstance(s, dict) and s.get("k") == "let":
+                init = expr(s.get("init"), e, where) if s.get("init") is not None else None
+                els = expr(s.get("else"), e, where) if isinstance(s.get("else"), dict) else s.get("else")
+                e = bind(s["pat"], e, where)
+                s2 = dict(s, init=init, pat=ren_pat(s["pat"], e))
+                if "else" in s:
+                    s2["else"] = els
+                out.append(s2)
+            else:
+                out.append(expr(s, e, where))
+        return dict(b, stmts=out)
+
+    for path, owner, is_trait, fn in all_fns(doc):
+        if fn.get("body") is None:
+            continue
+        env = {p["name"]: p["name"] for p in fn["params"] if p.get("name")}
+        for p in fn["params"]:
+            if not p.get("name") and isinstance(p.get("pat"), dict):
+                for n in pat_names(p["pat"], []):
+                    env[n] = n
+        where = []
+        fn["body"] = block(fn["body"], env, where)
+        if where:
+            log.append("%s%s: re-bound names given names of their own: %s" % ((owner + "::") if owner else "", fn["name"], sorted(set(where))))
+
+
 def normalise(doc):
     log = []
+    unshadow(doc, log)
     canonical_fields(doc, log)
     canonical_fns(doc, log)
     for fl in doc["files"]:
